@@ -142,9 +142,21 @@ def apply_ops_wt(wt, model, ops, use_ids=True):
             tm.apply_op(model, op)
             wt.rename_one(old, tm.path_of(model, op[1]))
         elif k == "delete":
+            # delete on disk ourselves and unversion: WorkingTree.remove() walks
+            # into versioned symlinks that point at directories (and loops on
+            # self-referencing ones), which is not what a builder should trip on
             path = tm.path_of(model, op[1])
+            victims = [op[1]] + tm.descendants(model, op[1])
+            vpaths = sorted((tm.path_of(model, v) for v in victims),
+                            key=lambda p: (-p.count("/"), p))
             tm.apply_op(model, op)
-            wt.remove([path], keep_files=False, force=True)
+            for p in vpaths:
+                ap = os.path.join(base, p)
+                if os.path.islink(ap) or not os.path.isdir(ap):
+                    os.unlink(ap)
+                else:
+                    os.rmdir(ap)
+            wt.unversion(sorted(vpaths, key=lambda p: (-p.count("/"), p)))
         elif k == "chmod":
             ap = os.path.join(base, tm.path_of(model, op[1]))
             os.chmod(ap, 0o755 if op[2] else 0o644)
